@@ -20,6 +20,11 @@ def check(ctx):
         "record in the trace's own parked-attachments map (the span's record arrives only at completion, the attachments at "
         "the end of each poll); R7 a scope records iff any item of its token is sampled (a span with parents in a sampled "
         "and an unsampled trace is an effective local parent).")
+    ctx.explanation += (" R10 the delivery bundle: queues drained to their end with the registry filtered in place, closed = closed and empty, "
+                        "stale sets kept unless cancelable, shared sets fanned out to every parent, one sampling filter at the choke point, a scope "
+                        "records iff any parent is sampled, setting a local parent opens a scope, no-op only without a recording parent.")
+    ctx.explanation += (" R11 the scope bundle (C10's rules): scopes opened on every path and refused only when the stack is full, released "
+                        "scopes popped with nothing left behind, the stack looked at from its top only and the only per-thread context.")
     ctx.not_decided = ("migration between threads, restoration of the previous context (C10), one local span per "
                        "poll as a count, delivery of what was recorded (C01/C03).")
     facts = ctx.facts("E")
@@ -47,3 +52,9 @@ def check(ctx):
     if c.need("R9"):
         collector.rule_drain_keeps_live(ctx, c, "R9")
         collector.rule_stale_kept(ctx, c, "R9")
+    # what delivery as such needs (see props/common.py)
+    from .common import delivery_bundle
+    delivery_bundle(ctx, ctx.facts("E"), "R10")
+    # what "the local parent in effect" needs from the scope stack (see props/common.py)
+    from .common import scope_bundle
+    scope_bundle(ctx, ctx.facts("E"), "R11")
